@@ -850,6 +850,8 @@ fn main() {
             ("FixedCapacityMemoryPool[3 blocks, lazy init]", fc_face_lazy),
             ("FixedCapacityMemoryPool[3 blocks of 4 KiB, secure_clear]", fc_face_secure_clear),
             ("MemoryPool[max_chunks=2]", mp_face),
+            ("five_level::MutexBasedPool[one size class]", mx_face),
+            ("five_level::LockFreePool[one size class]", fl_face),
         ] {
             reg.add(zverif::stress::Stress(zverif::stress::StressSpec {
                 name: format!("{pname} free-running stress (sampling)"),
